@@ -219,6 +219,10 @@ class MergeModel(object):
         if e.k == 'CXXMemberCallExpr' and e.callee and e.callee['name'] in ('push_back', 'emplace_back'):
             acts.append(('push', self.value_desc(e.args()[0]) if len(e.args()) == 1 else ('tuple',) + tuple(self.value_desc(a) for a in e.args())))
             return
+        # res++ / ++res on a non-cursor variable: a counting accumulator
+        if e.k == 'UnaryOperator' and e.op == '++' and ex.var_of(e.c[0]) is not None and ex.var_of(e.c[0]) not in self.cursors:
+            acts.append(('inc', ex.var_of(e.c[0]), e))
+            return
         # accumulator toggles / updates
         if e.k in ('BinaryOperator', 'CompoundAssignOperator') and e.op in ('=', '^=', '+=') and ex.var_of(e.c[0]) is not None:
             acts.append(('assign', ex.var_of(e.c[0]), e))
@@ -506,6 +510,10 @@ def check_dot(rep, prog, fn, rule='R17a'):
             return
     rets = [r for r in ex.returns_of(fn) if r not in shortcut_rets]
     acc = ex.var_of(rets[0].c[0]) if len(rets) == 1 and rets[0].c else None
+    if acc is None and len(rets) == 1 and rets[0].c:
+        r0_ = rets[0].c[0].strip_all()
+        if r0_.k == 'BinaryOperator' and ((r0_.op == '%' and r0_.c[1].strip_all().cv == 2) or (r0_.op == '&' and r0_.c[1].strip_all().cv == 1)):
+            acc = ex.var_of(r0_.c[0])
     if acc is None:
         rep.undecided(rule, fn.body, fn, what, 'does not return a single accumulator')
         return
@@ -519,14 +527,31 @@ def check_dot(rep, prog, fn, rule='R17a'):
         acts = m.actions(main.body, order)
         advs = sorted(a[1] for a in acts if a[0] == 'adv')
         toggles = [a for a in acts if a[0] == 'assign' and a[1] == acc]
-        others = [a for a in acts if a[0] in ('push', 'other', 'if', 'loop') or (a[0] == 'assign' and a[1] != acc)]
+        incs = [a for a in acts if a[0] == 'inc' and a[1] == acc]
+        if incs or any(a[0] == 'assign' and a[1] == acc and a[2].k == 'CompoundAssignOperator' and a[2].op == '+=' and a[2].c[1].strip_all().cv == 1 for a in acts):
+            # counting form: correct only if the value returned is reduced modulo 2
+            r0 = rets[0].c[0].strip_all()
+            reduced = r0.k == 'BinaryOperator' and ((r0.op == '%' and r0.c[1].strip_all().cv == 2) or (r0.op == '&' and r0.c[1].strip_all().cv == 1))
+            if order == 'eq' and not reduced:
+                rep.violation(rule, main, fn, what, 'on equal coordinates the accumulator is incremented (`%s`) and returned as it is: the result is the NUMBER of common '
+                              'coordinates, not its parity (three common coordinates give 3, so `support[l] * C == 1` misses an odd intersection)' % (incs[0][2].text(20) if incs else '+= 1'),
+                              key='%s|%s|count-not-parity' % (rule, fn.g))
+                return
+        others = [a for a in acts if a[0] in ('push', 'other', 'if', 'loop') or (a[0] in ('assign', 'inc') and a[1] != acc)]
         if others:
             rep.undecided(rule, main, fn, what, 'merge body outside the idiom table')
             return
         want_adv = {'lt': ['this'], 'gt': ['arg'], 'eq': ['arg', 'this']}[order]
         if advs != want_adv:
             bad.append('%s: cursors advanced %s, expected %s' % (order, advs, want_adv))
-        if order == 'eq':
+        counting = bool(incs) and not [t_ for t_ in toggles if is_toggle(prog, t_[2], acc)]
+        if counting:
+            # counting form (reduced modulo 2 at the return, checked above): exactly one increment on equal coordinates, none otherwise
+            if order == 'eq' and (len(incs) != 1 or toggles):
+                bad.append('on equal coordinates the counter is not incremented exactly once')
+            if order != 'eq' and (incs or toggles):
+                bad.append('accumulator changes on unequal coordinates')
+        elif order == 'eq':
             if len(toggles) != 1 or not is_toggle(prog, toggles[0][2], acc):
                 bad.append('on equal coordinates the accumulator is not toggled exactly once')
         elif toggles:
